@@ -31,6 +31,7 @@ sys.exit(0)
 
 
 def register(R, tier="quick"):
+    register_matches(R)
     def mk(I, **kw):
         items = HeapList(I, "items")
         I.assume(items.is_heap)
@@ -58,7 +59,7 @@ def register(R, tier="quick"):
                ensures=[lambda I, env: post_remove(I, env)[0], lambda I, env: post_remove(I, env)[1],
                         lambda I, env: post_remove(I, env)[2], lambda I, env: post_remove(I, env)[3],
                         lambda I, env: post_remove(I, env)[4]],
-               loops={0: LoopSpec(index="_k", inv=["items is self.items", "negated == -global_docnum",
+               loops={0: LoopSpec(index="_k", inv=["negated == -global_docnum",
                                                    "self.items.n == old(self.items.n)",
                                                    lambda I, env: _unchanged(I, env),
                                                    lambda I, env: _none_before(I, env)])},
@@ -113,3 +114,104 @@ def _newkey(I, env):
     h = env["self"].fields["items"]
     k = z3.Int("wk")
     return z3.ForAll([k], z3.Implies(z3.And(0 <= k, k < h.n), h.nd(k) != -env["global_docnum"]))
+
+
+def register_matches(R):
+    """C05 — ScoredCollector.matches: the generator that drives a scored search may replace the matcher and skip blocks
+    by quality; whatever it does NOT hand to the collector must score at most the collector's threshold.
+
+    Ghost: Y = set of ids yielded so far.  Between two yields the consumer (collect_matches) collects the yielded
+    document, which can only RAISE self.minscore (TopCollector._collect, proved above).  With m0 the matcher at entry:
+        lost(s)  :=  s was in m0's remaining list, has not been yielded and is no longer in the current matcher's
+                     remaining list
+        invariant:  lost(s)  =>  score0(s) <= self.minscore         (and nothing is lost when quality is not in use)
+    At exhaustion every posting was either collected or scores <= the final threshold, so the top N are unchanged."""
+    from pyvc.theories.cursor import Cursor, INF, mem, score_at, pos, minv, _real
+    from pyvc.theories.trace import Recorder
+    IntS, BoolS = z3.IntSort(), z3.BoolSort()
+
+    def mkself(I, quality=True, **kw):
+        m0 = Cursor(I, "m")
+        weighting = Recorder("weighting", attrs={"use_final": False})
+        top = Recorder("top_searcher", attrs={"weighting": weighting})
+        o = Obj(I.repo.klass(CL, "TopCollector"),
+                {"matcher": m0, "minscore": z3.Real("minscore0"), "replace": z3.Int("replace"), "replaced_times": z3.Int("rt"),
+                 "skipped_times": z3.Int("st"), "usequality": quality, "top_searcher": top, "limit": z3.Int("limit"),
+                 "items": HeapList(I, "items"), "total": z3.Int("total")})
+        I.ghost["Y"] = z3.K(IntS, z3.BoolVal(False))
+        I.ghost["m0"] = m0
+        I.ghost["pos0"] = m0.cur
+        I.ghost["quality"] = quality
+        I.assume(o.fields["minscore"] >= 0)
+        I.assume(o.fields["replace"] >= 0)
+        return {"self": o}
+
+    def rem0(I, s):
+        m0 = I.ghost["m0"]
+        return z3.And(m0.S(s), s >= I.ghost["pos0"])
+
+    def rem(m, s):
+        return z3.And(m.S(s), s >= m.cur)
+
+    def inv(I, env):
+        o = env["self"]
+        m = env["matcher"]
+        m0 = I.ghost["m0"]
+        Y = I.ghost["Y"]
+        ms = _real(o.fields["minscore"])
+        local = _real(env["minscore"])
+        uq = I.truth(env["usequality"])
+        uq = z3.BoolVal(uq) if isinstance(uq, bool) else uq
+        s = z3.Int(I.fresh_name("s"))
+        lost = z3.And(rem0(I, s), z3.Not(z3.Select(Y, s)), z3.Not(rem(m, s)))
+        return [z3.And(m.wf(m.cur), local <= ms, local >= 0),
+                z3.ForAll([s], z3.Implies(rem(m, s), rem0(I, s))),
+                z3.ForAll([s], z3.Implies(lost, m0.sc(s) <= ms)),
+                # with the collector's quality switch off nothing is ever dropped and scores are untouched
+                z3.BoolVal(True) if I.ghost["quality"] else z3.And(z3.Not(uq), z3.ForAll([s], z3.Not(lost))),
+                z3.ForAll([s], z3.Implies(z3.Select(Y, s), z3.And(rem0(I, s), s < m.cur))),
+                z3.ForAll([s], z3.Implies(rem(m, s), z3.Or(m.sc(s) == m0.sc(s),
+                                                           z3.And(z3.BoolVal(bool(I.ghost["quality"])), m0.sc(s) <= ms, m.sc(s) <= ms)))),
+                z3.Implies(uq, m.sbq)]
+
+    def post(I, env):
+        o = env["self"]
+        m0 = I.ghost["m0"]
+        Y = I.ghost["Y"]
+        ms = _real(o.fields["minscore"])
+        s = z3.Int(I.fresh_name("s"))
+        return z3.ForAll([s], z3.Implies(z3.And(rem0(I, s), z3.Not(z3.Select(Y, s))), m0.sc(s) <= ms))
+
+    def post_yielded(I, env):
+        Y = I.ghost["Y"]
+        s = z3.Int(I.fresh_name("s"))
+        return z3.ForAll([s], z3.Implies(z3.Select(Y, s), rem0(I, s)))
+
+    state = {}
+
+    def fresh_matcher(I):
+        state["m"] = Cursor(I, "mh")
+        return state["m"]
+
+    def set_add(I, Y, y):
+        return z3.Store(Y, to_z3(y), z3.BoolVal(True))
+
+    def raised(I, v):
+        nv = z3.Real(I.fresh_name("minscore"))
+        I.assume(nv >= _real(v))
+        return nv
+
+    R.contract(CL + ":ScoredCollector.matches", props=["C05", "C01"], setup=mkself, variants=[dict(quality=True), dict(quality=False)],
+               spec_funcs={"set_add": SpecFn("set_add", set_add), "raised": SpecFn("raised", raised)},
+               requires=["minv(self.matcher)"],
+               on_yield="Y = set_add(Y, _y)\nself.minscore = raised(self.minscore)\n",
+               ensures=[post, post_yielded],
+               loops={0: LoopSpec(inv=[(lambda I, env, k=k: inv(I, env)[k]) for k in range(7)] + ["matcher is self.matcher"], havoc=["Y"],
+                                  havoc_as={"matcher": fresh_matcher, "self.matcher": lambda I: state["m"]},
+                                  modifies=["self.minscore", "self.replaced_times", "self.skipped_times"])},
+               canaries=[Canary("prunes-without-quality", "rq = minscore or 0 if usequality else 0", "rq = minscore or 0"),
+                         Canary("threshold-from-the-future", "rq = minscore or 0 if usequality else 0", "rq = (minscore or 0) + 1 if usequality else 0"),
+                         Canary("yields-a-non-member", "yield matcher.id()", "yield matcher.id() + 1"),
+                         Canary("skips-by-current-threshold-plus", "matcher.skip_to_quality(minscore)", "matcher.skip_to_quality(minscore + 1)")],
+               note="everything the generator does not yield scores at most the collector's (monotonically rising) threshold; "
+                    "without quality support nothing is dropped at all")
